@@ -79,12 +79,12 @@ impl W {
 
     /// market increase order: `collateral` of the side's collateral token, `size` in USD (unit 10^20)
     pub fn create_increase(&self, db: &mut Db, m: &MarketKeys, owner: Pubkey, nonce: [u8; 32], side: Side, collateral: u64, size: u128) -> std::result::Result<(), TxError> {
-        self.create_increase_with(db, m, owner, nonce, side, collateral, size, None)
+        self.create_increase_with(db, m, owner, owner, nonce, side, collateral, size, None)
     }
 
     /// as `create_increase`, with an acceptable price (an unreachable one makes the execution fail softly)
     #[allow(clippy::too_many_arguments)]
-    pub fn create_increase_with(&self, db: &mut Db, m: &MarketKeys, owner: Pubkey, nonce: [u8; 32], side: Side, collateral: u64, size: u128, acceptable_price: Option<u128>) -> std::result::Result<(), TxError> {
+    pub fn create_increase_with(&self, db: &mut Db, m: &MarketKeys, owner: Pubkey, receiver: Pubkey, nonce: [u8; 32], side: Side, collateral: u64, size: u128, acceptable_price: Option<u128>) -> std::result::Result<(), TxError> {
         let order = self.order_pda(&owner, &nonce);
         let ctoken = if side.collateral_long { m.long } else { m.short };
         for mint in [m.long, m.short] {
@@ -93,7 +93,7 @@ impl W {
         let mut params = Self::order_params(OrderKind::MarketIncrease, side, collateral, size);
         params.acceptable_price = acceptable_price;
         let accounts = gmsol_store::accounts::CreateOrderV2 {
-            owner, receiver: owner, store: self.store, market: m.market, user: self.user_pda(&owner), order, position: Some(self.position_pda(&owner, m, side)),
+            owner, receiver, store: self.store, market: m.market, user: self.user_pda(&owner), order, position: Some(self.position_pda(&owner, m, side)),
             initial_collateral_token: Some(ctoken), final_output_token: ctoken, long_token: Some(m.long), short_token: Some(m.short),
             initial_collateral_token_escrow: Some(ata(&order, &ctoken)), final_output_token_escrow: None, long_token_escrow: Some(ata(&order, &m.long)), short_token_escrow: Some(ata(&order, &m.short)),
             initial_collateral_token_source: Some(ata(&owner, &ctoken)),
@@ -125,11 +125,11 @@ impl W {
 
     /// market decrease order: withdraw `collateral` of the collateral token and reduce the size by `size` USD
     pub fn create_decrease(&self, db: &mut Db, m: &MarketKeys, owner: Pubkey, nonce: [u8; 32], side: Side, collateral: u64, size: u128) -> std::result::Result<(), TxError> {
-        self.create_decrease_with(db, m, owner, nonce, side, collateral, size, None)
+        self.create_decrease_with(db, m, owner, owner, nonce, side, collateral, size, None)
     }
 
     #[allow(clippy::too_many_arguments)]
-    pub fn create_decrease_with(&self, db: &mut Db, m: &MarketKeys, owner: Pubkey, nonce: [u8; 32], side: Side, collateral: u64, size: u128, acceptable_price: Option<u128>) -> std::result::Result<(), TxError> {
+    pub fn create_decrease_with(&self, db: &mut Db, m: &MarketKeys, owner: Pubkey, receiver: Pubkey, nonce: [u8; 32], side: Side, collateral: u64, size: u128, acceptable_price: Option<u128>) -> std::result::Result<(), TxError> {
         let order = self.order_pda(&owner, &nonce);
         let ctoken = if side.collateral_long { m.long } else { m.short };
         for mint in [m.long, m.short] {
@@ -138,7 +138,7 @@ impl W {
         let mut params = Self::order_params(OrderKind::MarketDecrease, side, collateral, size);
         params.acceptable_price = acceptable_price;
         let accounts = gmsol_store::accounts::CreateOrderV2 {
-            owner, receiver: owner, store: self.store, market: m.market, user: self.user_pda(&owner), order, position: Some(self.position_pda(&owner, m, side)),
+            owner, receiver, store: self.store, market: m.market, user: self.user_pda(&owner), order, position: Some(self.position_pda(&owner, m, side)),
             initial_collateral_token: None, final_output_token: ctoken, long_token: Some(m.long), short_token: Some(m.short),
             initial_collateral_token_escrow: None, final_output_token_escrow: Some(ata(&order, &ctoken)), long_token_escrow: Some(ata(&order, &m.long)), short_token_escrow: Some(ata(&order, &m.short)),
             initial_collateral_token_source: None,
@@ -175,17 +175,18 @@ impl W {
     }
 
     /// close an order (`increase`: whether it was created by `create_increase`, else by `create_decrease`)
-    pub fn close_order(&self, db: &mut Db, m: &MarketKeys, owner: Pubkey, nonce: [u8; 32], side: Side, increase: bool, by: Pubkey) -> std::result::Result<(), TxError> {
+    pub fn close_order(&self, db: &mut Db, m: &MarketKeys, owner: Pubkey, receiver: Pubkey, nonce: [u8; 32], side: Side, increase: bool, by: Pubkey) -> std::result::Result<(), TxError> {
         let order = self.order_pda(&owner, &nonce);
         let ctoken = if side.collateral_long { m.long } else { m.short };
         for mint in [m.long, m.short] {
             self.ensure_ata(db, &owner, &mint);
+            self.ensure_ata(db, &receiver, &mint);
         }
         let accounts = gmsol_store::accounts::CloseOrderV2 {
-            executor: by, store: self.store, store_wallet: self.store_wallet, owner, receiver: owner, rent_receiver: owner, user: self.user_pda(&owner), referrer_user: None, order,
+            executor: by, store: self.store, store_wallet: self.store_wallet, owner, receiver, rent_receiver: owner, user: self.user_pda(&owner), referrer_user: None, order,
             initial_collateral_token: increase.then_some(ctoken), final_output_token: (!increase).then_some(ctoken), long_token: Some(m.long), short_token: Some(m.short),
             initial_collateral_token_escrow: increase.then(|| ata(&order, &ctoken)), final_output_token_escrow: (!increase).then(|| ata(&order, &ctoken)), long_token_escrow: Some(ata(&order, &m.long)), short_token_escrow: Some(ata(&order, &m.short)),
-            initial_collateral_token_ata: increase.then(|| ata(&owner, &ctoken)), final_output_token_ata: (!increase).then(|| ata(&owner, &ctoken)), long_token_ata: Some(ata(&owner, &m.long)), short_token_ata: Some(ata(&owner, &m.short)),
+            initial_collateral_token_ata: increase.then(|| ata(&owner, &ctoken)), final_output_token_ata: (!increase).then(|| ata(&receiver, &ctoken)), long_token_ata: Some(ata(&receiver, &m.long)), short_token_ata: Some(ata(&receiver, &m.short)),
             system_program: sys(), token_program: spl_token::ID, associated_token_program: spl_associated_token_account::ID,
             callback_authority: None, callback_program: None, callback_shared_data_account: None, callback_partitioned_data_account: None,
             event_authority: self.event_authority, program: self.pid,
